@@ -60,18 +60,26 @@ Section Tree.
              | Some (s, Some (p, e)) => chain f tree p ++ [(Some e, s)]
              end
     end.
-  (* solve(): the tree, the reported path, the approximate flag and the reported difference; None = no solution reported *)
-  Definition tree_solve (starts : list St) (ins : list I) : list node * option (list (option E * St) * bool * D) :=
-    match starts with
+  (* one call of solve() on a planner that already holds [tree0] (empty for the first call), with the start states not handed
+     out before: the tree, the reported path, the approximate flag and the reported difference; None = no solution reported *)
+  Definition tree_call (tree0 : list node) (new_starts : list St) (ins : list I) : list node * option (list (option E * St) * bool * D) :=
+    match tree0 ++ map (fun x => (x, None)) new_starts with
     | [] => ([], None)
-    | _ =>
-      let s := tree_loop (mkR (map (fun x => (x, None)) starts) None None) ins in
+    | init =>
+      let s := tree_loop (mkR init None None) ins in
       (r_tree s,
        match r_sol s, r_approx s with
        | Some i, Some (_, dd) => Some (chain (S (length (r_tree s))) (r_tree s) i, false, dd)
        | None, Some (i, dd) => Some (chain (S (length (r_tree s))) (r_tree s) i, true, dd)
        | _, None => None
        end)
+    end.
+  Definition tree_solve (starts : list St) (ins : list I) := tree_call [] starts ins.
+  (* a sequence of solve() calls without clear(): the starts are handed out in the first call; every call's report *)
+  Fixpoint tree_calls (tree0 : list node) (new_starts : list St) (calls : list (list I)) : list node * list (option (list (option E * St) * bool * D)) :=
+    match calls with
+    | [] => (tree0 ++ map (fun x => (x, None)) new_starts, [])
+    | ins :: rest => let '(t1, rep) := tree_call tree0 new_starts ins in let '(t2, reps) := tree_calls t1 [] rest in (t2, rep :: reps)
     end.
 End Tree.
 
@@ -98,6 +106,11 @@ Section Rrt.
     let '(tree, rep) := tree_solve St D St unit dist dlt (fun r => r) rrt_extend sat gdist dflt starts (targets hits samples) in
     (map (fun n => (fst n, option_map fst (snd n))) tree,
      match rep with Some (path, approx, dd) => Some (map snd path, approx, dd) | None => None end).
+  (* several solve() calls without clear(): each call has its own goal-bias draws and samples *)
+  Definition rrt_calls (starts : list St) (calls : list (list bool * list St)) : list (St * option nat) * list (option (list St * bool * D)) :=
+    let '(tree, reps) := tree_calls St D St unit dist dlt (fun r => r) rrt_extend sat gdist dflt [] starts (map (fun c => targets (fst c) (snd c)) calls) in
+    (map (fun n => (fst n, option_map fst (snd n))) tree,
+     map (fun rep => match rep with Some (path, approx, dd) => Some (map snd path, approx, dd) | None => None end) reps).
 End Rrt.
 
 (* ---- control::RRT (no intermediate states) with SimpleDirectedControlSampler ---- *)
